@@ -93,7 +93,19 @@ func (ctx *Context) Parse(value string) error {
 	// 设置错误消息语言
 	SetParseErrorLanguage(ctx.Config.ParseErrorLanguage)
 	verifGate("parse.lang", ctx)
-	_, err := p.parse(nil)
+	_, err := func() (val any, err error) {
+		defer func() {
+			// 解析算力耗尽时解析器以 panic 中止，这里转为普通错误
+			if r := recover(); r != nil {
+				if r == errMaxExprCnt { //nolint:errorlint
+					err = errors.New("E8: 超出解析算力上限，请不要发送过长或过于复杂的指令")
+					return
+				}
+				panic(r)
+			}
+		}()
+		return p.parse(nil)
+	}()
 	verifGate("parse.done", ctx)
 	if err != nil {
 		ctx.Error = err
